@@ -186,6 +186,10 @@ extern "C" fn on_fatal_signal(sig: libc::c_int) {
 }
 
 fn install_fatal_signal_reporter() {
+    if cfg!(miri) {
+        // Miri has no signal(); an abort under Miri is reported by Miri itself
+        return;
+    }
     unsafe {
         libc::signal(libc::SIGABRT, on_fatal_signal as *const () as libc::sighandler_t);
         libc::signal(libc::SIGSEGV, on_fatal_signal as *const () as libc::sighandler_t);
